@@ -16,7 +16,7 @@
      tty t               every byte the tty accepted, in order *)
 From Coq Require Import List NArith Arith.
 From SNT Require Import Base.Outcome IO.IOQueue IO.IOQueueProofs IO.IOQueueFrames
-  IO.TermIO IO.TermIOProofs IO.TermIOLive IO.FifoSpec IO.FifoSpecProofs.
+  IO.TermIO IO.TermIOProofs IO.TermIOLive IO.FifoSpec IO.FifoSpecProofs IO.FrameSpec IO.FrameSpecProofs.
 Import ListNotations.
 
 Section Statements.
@@ -181,6 +181,22 @@ Section Statements.
     (N.of_nat (length (written ops)) <= usize_max)%N ->
     gfifo_check aeqb ops (trace qempty ops) = true.
   Proof. exact spec_accepts_model. Qed.
+  (* ... and so does the specification side of the pty sessions (IO/FrameSpec.v: frames delimited
+     by flush / poll / frames_drop, a drop recorded with the number of bytes the tty had accepted):
+     for every program and every kernel schedule that ends with nothing pending, what the tty
+     received passes `frame_check` against what the program did *)
+  Theorem C16_frame_spec_accepts_model : forall (aeqb : A -> A -> bool),
+    (forall x, aeqb x x = true) ->
+    forall (prog : list (top A)) t X,
+    (N.of_nat (length (twritten prog)) <= usize_max)%N ->
+    trun term0 prog [] = Ok (t, X) -> pending (tq t) = [] ->
+    frame_check aeqb (fops_run qempty [] (compile prog)) (tty t) = true.
+  Proof.
+    intros aeqb Hrefl prog t X HB E Hp.
+    destruct (term_delivery prog HB) as (t' & X' & E' & Ex & _). rewrite E in E'. inversion E'; subst t' X'.
+    apply (frame_spec_accepts_model aeqb Hrefl (compile prog) (tq t) (tty t) X); auto.
+    now rewrite written_compile.
+  Qed.
 End Statements.
 
 (* ---- the code as found (before the two `fix:` commits) refutes the property *)
